@@ -72,7 +72,24 @@ def run_for_property(prop, rep, seed=0, jobs=16):
                 rep.ok(f"{prop}.selftest", f"twin:{m['id']}", m["file"], "behaviour-preserving rewrite accepted")
             else:
                 bad.append(f"benign twin {m['id']} ({m['what']}) raised an alarm: exit {r['exit']}, {r['first']} {r['err'][:120]}")
-    rep.extra["selftest"] = {"variants": len(muts), "passed": n_ok, "skipped": n_skip,
+    # whole-package benign twins: layout change (ast.unparse) and renaming of every local variable
+    from . import transforms
+    twins = {}
+    for kind in ("unparse", "rename_locals"):
+        d = transforms.make(kind, REPO)
+        try:
+            r = subprocess.run([os.path.join(HERE, "check"), prop, "--root", d, "--no-write", "--tier", "quick"], capture_output=True, text=True, timeout=300)
+        finally:
+            shutil.rmtree(d, ignore_errors=True)
+        base = subprocess.run([os.path.join(HERE, "check"), prop, "--root", REPO, "--no-write", "--tier", "quick"], capture_output=True, text=True, timeout=300)
+        twins[kind] = r.returncode
+        if r.returncode == base.returncode:
+            n_ok += 1
+            rep.ok(f"{prop}.selftest", f"twin:package-{kind}", "virocon/*.py", "whole-package behaviour-preserving transformation gives the same verdict")
+        else:
+            fl = [l.strip()[:200] for l in r.stdout.splitlines() if l.strip().startswith("FAIL") or "ANALYSIS-ERROR" in l]
+            bad.append(f"whole-package benign transformation '{kind}' changes the verdict: exit {r.returncode} vs {base.returncode}: {fl[:2]}")
+    rep.extra["selftest"] = {"variants": len(muts) + 2, "passed": n_ok, "skipped": n_skip, "package_twins": twins,
                              "skipped_ids": [r["id"] for r in results if r["status"] == "skipped"]}
     for b in bad:
         rep.error("self-test: " + b)
